@@ -93,9 +93,66 @@ func checkC13(c *fw.Ctx) {
 		for _, ins := range b.Instrs {
 			if st, isSt := ins.(*ssa.Store); isSt && strings.HasSuffix(fw.Sig(st.Addr), ".fields.Content") {
 				conds := condsOf(b)
-				ok := strings.Contains(conds, `!(mime.ParseMediaType(`) && strings.Contains(conds, `#0 != "application/json")`) && strings.Contains(conds, "unicode/utf8.Valid(io.ReadAll(*param:req.Body)#0)") && !strings.Contains(conds, "!unicode/utf8.Valid(")
+				admitted := func(s string) bool {
+					return strings.Contains(s, `!(mime.ParseMediaType(`) && strings.Contains(s, `#0 != "application/json")`) && strings.Contains(s, "unicode/utf8.Valid(io.ReadAll(*param:req.Body)#0)") && !strings.Contains(s, "!unicode/utf8.Valid(")
+				}
+				ok := admitted(conds)
+				if !ok {
+					// a value decided earlier (the result of an expanded helper): every alternative
+					// that is not nil must have been produced under the admission conditions
+					if rows, err := fw.ValueRows(read, st.Val, b); err == nil && len(rows) > 1 {
+						ok = true
+						for _, r := range rows {
+							if k, isC := r.Val.(*ssa.Const); isC && k.Value == nil {
+								continue
+							}
+							for _, term := range r.Cond {
+								parsed, isJSON, utf8ok := false, false, false
+								for _, l := range term {
+									a := l.Atom
+									switch {
+									case strings.Contains(a, "mime.ParseMediaType(") && strings.Contains(a, "#2") && strings.HasSuffix(a, " == nil)"):
+										parsed = l.Pos
+									case strings.Contains(a, "mime.ParseMediaType(") && strings.Contains(a, `#0 == "application/json")`):
+										isJSON = l.Pos
+									case strings.HasPrefix(a, "unicode/utf8.Valid("):
+										utf8ok = l.Pos
+									}
+								}
+								if !(parsed && isJSON && utf8ok) {
+									ok = false
+								}
+							}
+						}
+					}
+				}
 				c.Check(ok, "3 body", "a body is admitted only as application/json and valid UTF-8", c.P.Pos(fw.InstrPos(st)), "", "content stored under ["+conds+"]")
 			}
+		}
+	}
+	// the body is always read: what is verified is what was transmitted, so a request whose body
+	// is skipped (no Content-Length, chunked encoding) must not be verified as if it had none
+	{
+		sites := fw.MustCallSites(read, fw.NameIs("io.ReadAll"))
+		isSite := map[ssa.Instruction]bool{}
+		for _, s := range sites {
+			isSite[s] = true
+		}
+		_, bad := fw.MustPrecede(read, func(i ssa.Instruction) bool { return isSite[i] }, func(i ssa.Instruction) bool {
+			r, ok := i.(*ssa.Return)
+			if !ok || len(r.Results) == 0 {
+				return false
+			}
+			k, isC := r.Results[0].(*ssa.Const)
+			return !(isC && k.Value == nil)
+		})
+		switch {
+		case len(sites) == 0:
+			c.Undecided("3 body", "the body is read on every path to a reconstructed request", "no call that is guaranteed to read the body was recognised")
+		case len(bad) > 0:
+			c.Fail("3 body", "the body is read on every path to a reconstructed request", c.P.Pos(fw.InstrPos(bad[0])), "a request is reconstructed on a path that never reads the body: a body that is present but skipped (e.g. sent without Content-Length) is not part of what is verified")
+		default:
+			c.Ok("3 body", "the body is read on every path to a reconstructed request", c.P.Pos(read.Pos()), "")
 		}
 	}
 	// header admission: missing origin/key/sig, conflicting origins
